@@ -190,3 +190,485 @@ Lemma el_vary_inv e c n a v : el_inv e -> el_inv (fst (el_vary e c n a v)).
 Proof.
   intro He. unfold el_vary. destruct (is_duration a); [apply el_change_dur_inv|apply el_change_arg_inv]; exact He.
 Qed.
+
+(* ================= sequences: seq_inv ================= *)
+Lemma seq_inv_empty : seq_inv seq_empty.
+Proof. unfold seq_inv, seq_empty; cbn [sdata sseq sspecs akeys map]. repeat split; try constructor. intros p x []. Qed.
+
+Lemma seq_inv_spec_set s k v : seq_inv s -> seq_inv (spec_set s k v).
+Proof.
+  intros (H1 & H2 & H3 & H4). unfold spec_set, seq_inv; cbn [sdata sseq sspecs].
+  repeat split; try assumption. apply (al_NoDup_aset str_eqb str_eqb_eq). exact H3.
+Qed.
+
+Lemma seq_inv_set_sseq s k q : seq_inv s -> seq_inv (set_sseq s (aset Z.eqb k q (sseq s))).
+Proof.
+  intros (H1 & H2 & H3 & H4). unfold set_sseq, seq_inv; cbn [sdata sseq sspecs].
+  repeat split; try assumption. apply (al_NoDup_aset Z.eqb Z.eqb_eq). exact H2.
+Qed.
+
+Lemma seq_inv_set_name s n : seq_inv s -> seq_inv (mkSeq (sdata s) (sseq s) (sspecs s) n).
+Proof. intro H. exact H. Qed.
+
+Lemma seq_inv_set_filter s c k o f t : seq_inv s -> seq_inv (fst (seq_set_filter s c k o f t)).
+Proof.
+  intro H. unfold seq_set_filter.
+  destruct (negb (str_eqb k (S_ "HP") || str_eqb k (S_ "LP"))); [exact H|].
+  destruct o as [o|]; [|exact H].
+  destruct (negb (val_is_none f) && negb (val_is_none t)); [exact H|].
+  unfold ok; cbn [fst]. apply seq_inv_spec_set. exact H.
+Qed.
+
+Lemma seq_inv_set_sequencing s pos f v : seq_inv s -> seq_inv (fst (seq_set_sequencing s pos f v)).
+Proof.
+  intro H. unfold seq_set_sequencing. destruct (alookup Z.eqb pos (sseq s)) as [q|]; [|exact H].
+  unfold ok; cbn [fst]. apply seq_inv_set_sseq. exact H.
+Qed.
+
+Lemma seq_inv_put s pos x nm :
+  seq_inv s -> entry_inv x ->
+  seq_inv (mkSeq (aset Z.eqb pos x (sdata s)) (aset Z.eqb pos sq_default (sseq s)) (sspecs s) nm).
+Proof.
+  intros (H1 & H2 & H3 & H4) Hx. unfold seq_inv; cbn [sdata sseq sspecs].
+  split; [apply (al_NoDup_aset Z.eqb Z.eqb_eq); exact H1|].
+  split; [apply (al_NoDup_aset Z.eqb Z.eqb_eq); exact H2|].
+  split; [exact H3|].
+  intros p y Hin. apply In_aset in Hin as [E|Hin]; [inversion E; subst; exact Hx|eapply H4; exact Hin].
+Qed.
+
+Lemma seq_inv_add_element s pos e : seq_inv s -> el_inv e -> seq_inv (fst (seq_add_element s pos e)).
+Proof.
+  intros Hs He. unfold seq_add_element. destruct (el_validate e); [|exact Hs].
+  unfold ok; cbn [fst]. apply seq_inv_put; [exact Hs|exact He].
+Qed.
+
+Lemma to_sub_data_In : forall l p e, In (p, e) (to_sub_data l) -> In (p, EElem e) l.
+Proof.
+  induction l as [|[p0 [e0|sb]] t IH]; intros p e H; cbn [to_sub_data] in H.
+  - destruct H.
+  - destruct H as [E|H]; [inversion E; subst; left; reflexivity|right; apply IH; exact H].
+  - right. apply IH. exact H.
+Qed.
+
+Lemma to_sub_data_NoDup : forall l, NoDup (akeys l) -> NoDup (akeys (to_sub_data l)).
+Proof.
+  induction l as [|[p0 [e0|sb]] t IH]; intro H; cbn [to_sub_data]; [constructor| |];
+    cbn [akeys map fst] in H; inversion H as [|? ? Hn Ht]; subst.
+  - cbn [akeys map fst]. constructor; [|apply IH; exact Ht].
+    intro Hin. apply Hn. unfold akeys in Hin |- *. apply in_map_iff in Hin as ([p e] & Hf & Hin). cbn [fst] in Hf. subst p.
+    apply to_sub_data_In in Hin. apply in_map_iff. exists (p0, EElem e). split; [reflexivity|exact Hin].
+  - apply IH. exact Ht.
+Qed.
+
+Lemma seq_inv_add_sub s pos sub : seq_inv s -> seq_inv sub -> seq_inv (fst (seq_add_sub s pos sub)).
+Proof.
+  intros Hs (B1 & B2 & B3 & B4). unfold seq_add_sub.
+  destruct (existsb (fun p : Z * entry => entry_is_sub (snd p)) (sdata sub)); [exact Hs|].
+  destruct (negb (val_eqb (seq_SR sub) (seq_SR s))); [exact Hs|].
+  unfold ok; cbn [fst]. apply seq_inv_put; [exact Hs|].
+  unfold entry_inv, sub_inv; cbn [sdata sseq sspecs].
+  split; [apply to_sub_data_NoDup; exact B1|]. split; [exact B2|]. split; [exact B3|].
+  intros p e Hin. apply to_sub_data_In in Hin. exact (B4 _ _ Hin).
+Qed.
+
+Lemma seq_add_form a b c :
+  seq_add a b = Ok c ->
+  c = mkSeq (merge_shift (Z.of_nat (length (sdata a))) (sdata a) (sdata b))
+            (merge_shift (Z.of_nat (length (sdata a))) (sseq a)
+               (map (fun p : Z * sqing => (fst p, shift_sq (Z.of_nat (length (sdata a))) (snd p))) (sseq b)))
+            (sspecs b) [].
+Proof.
+  unfold seq_add. intro H.
+  destruct (seq_check a) as [[|]|ea]; cbn [bind negb] in H; try discriminate.
+  destruct (seq_check b) as [[|]|eb]; cbn [bind negb] in H; try discriminate.
+  destruct (specs_eqb (sspecs a) (sspecs b)); cbn [negb] in H; try discriminate.
+  cbv zeta in H. injection H as <-. reflexivity.
+Qed.
+
+Lemma akeys_valmap' {W W'} (f : W -> W') (l : list (Z * W)) : akeys (map (fun p => (fst p, f (snd p))) l) = akeys l.
+Proof. unfold akeys. rewrite map_map. reflexivity. Qed.
+
+Lemma seq_inv_add a b c : seq_inv a -> seq_inv b -> seq_add a b = Ok c -> seq_inv c.
+Proof.
+  intros (A1 & A2 & A3 & A4) (B1 & B2 & B3 & B4) H. apply seq_add_form in H. subst c.
+  unfold seq_inv; cbn [sdata sseq sspecs].
+  split; [apply ms_NoDup; exact A1|]. split; [apply ms_NoDup; exact A2|]. split; [exact B3|].
+  intros p x Hin. apply ms_In in Hin as [Hin|(k' & Hin & _)]; [exact (A4 _ _ Hin)|exact (B4 _ _ Hin)].
+Qed.
+
+Lemma seq_inv_upd s k e e' :
+  seq_inv s -> alookup Z.eqb k (sdata s) = Some (EElem e) -> (el_inv e -> el_inv e') ->
+  seq_inv (set_sdata s (aset Z.eqb k (EElem e') (sdata s))).
+Proof.
+  intros (H1 & H2 & H3 & H4) Hl He. unfold set_sdata, seq_inv; cbn [sdata sseq sspecs].
+  split; [apply (al_NoDup_aset Z.eqb Z.eqb_eq); exact H1|]. split; [exact H2|]. split; [exact H3|].
+  intros p y Hin. apply In_aset in Hin as [E|Hin]; [|exact (H4 _ _ Hin)].
+  inversion E; subst. apply alookup_In in Hl as (k' & Hl). apply He. exact (H4 _ _ Hl).
+Qed.
+
+Lemma on_seq_elem_pres (P : seq -> Prop) (Q : elem -> Prop) s pos f :
+  (forall s k e e', P s -> alookup Z.eqb k (sdata s) = Some (EElem e) -> (Q e -> Q e') ->
+                    P (set_sdata s (aset Z.eqb k (EElem e') (sdata s)))) ->
+  (forall e, Q e -> Q (fst (f e))) -> P s -> P (fst (on_seq_elem s pos f)).
+Proof.
+  intros Hupd Hf Hs. unfold on_seq_elem.
+  destruct (alookup Z.eqb pos (sdata s)) as [[e|sb]|] eqn:El; [|exact Hs|exact Hs].
+  pose proof (Hf e) as Hfe. destruct (f e) as [e' o]. cbn [fst] in *.
+  apply (Hupd s pos e e' Hs El Hfe).
+Qed.
+
+(* ================= the sweep tools preserve any predicate closed under the sequence primitives ================= *)
+Definition av_loop (m : nat) : list variation -> seq -> result seq :=
+  fix go (vs : list variation) (acc : seq) : result seq :=
+    match vs with
+    | [] => Ok acc
+    | v :: t =>
+        match alookup Z.eqb (v_pos v) (sdata acc) with
+        | None => Err EKey
+        | Some (ESub _) => Err EAttr
+        | Some (EElem e) =>
+            match nth_error (v_vals v) m with
+            | None => Err EIndex
+            | Some x =>
+                match el_vary e (v_chan v) (v_name v) (v_arg v) x with
+                | (e', None) => go t (set_sdata acc (aset Z.eqb (v_pos v) (EElem e') (sdata acc)))
+                | (_, Some er) => Err er
+                end
+            end
+        end
+    end.
+
+Lemma apply_variations_eq sq vars m : apply_variations sq vars m = av_loop m vars sq.
+Proof. reflexivity. Qed.
+
+Lemma av_loop_cons m v t acc :
+  av_loop m (v :: t) acc =
+  match alookup Z.eqb (v_pos v) (sdata acc) with
+  | None => Err EKey
+  | Some (ESub _) => Err EAttr
+  | Some (EElem e) =>
+      match nth_error (v_vals v) m with
+      | None => Err EIndex
+      | Some x =>
+          match el_vary e (v_chan v) (v_name v) (v_arg v) x with
+          | (e', None) => av_loop m t (set_sdata acc (aset Z.eqb (v_pos v) (EElem e') (sdata acc)))
+          | (_, Some er) => Err er
+          end
+      end
+  end.
+Proof. reflexivity. Qed.
+
+Section ToolsPres.
+Variable P : seq -> Prop.
+Variable Q : elem -> Prop.
+Hypothesis H_setsr : forall SR, P (seq_set_sr seq_empty SR).
+Hypothesis H_blank : forall s, P s -> P (mkSeq [] [] (sspecs s) []).
+Hypothesis H_addE : forall s k e, P s -> Q e -> P (fst (seq_add_element s k e)).
+Hypothesis H_upd : forall s k e e', P s -> alookup Z.eqb k (sdata s) = Some (EElem e) -> (Q e -> Q e') ->
+                                    P (set_sdata s (aset Z.eqb k (EElem e') (sdata s))).
+Hypothesis H_add : forall a b c, P a -> P b -> seq_add a b = Ok c -> P c.
+Hypothesis H_vary : forall e c n a v, Q e -> Q (fst (el_vary e c n a v)).
+
+Lemma step_res_fst {A} (x : step A) a : step_res x = Ok a -> a = fst x.
+Proof. destruct x as [y [er|]]; cbn [step_res fst]; intro H; [discriminate|]. injection H as <-. reflexivity. Qed.
+
+Lemma fill_loop_pres base : Q base -> forall ks acc s, fill_loop base ks acc = Ok s -> P acc -> P s.
+Proof.
+  intro Hb. induction ks as [|k t IH]; intros acc s H Hacc.
+  - cbn [fill_loop] in H. injection H as <-. exact Hacc.
+  - rewrite fill_loop_cons in H.
+    destruct (step_res (seq_add_element acc k base)) as [acc'|er] eqn:Ea; cbn [bind] in H; [|discriminate].
+    apply step_res_fst in Ea. subst acc'. apply (IH _ _ H). apply H_addE; assumption.
+Qed.
+
+Lemma inner_loop_pres c n a : forall kv sq sq', inner_loop c n a kv sq = Ok sq' -> P sq -> P sq'.
+Proof.
+  induction kv as [|[k v] kt IH]; intros sq sq' H Hsq.
+  - cbn [inner_loop] in H. injection H as <-. exact Hsq.
+  - rewrite inner_loop_cons in H.
+    destruct (alookup Z.eqb k (sdata sq)) as [[e|sb]|] eqn:El; [|discriminate|discriminate].
+    pose proof (H_vary e c n a v) as Hv.
+    destruct (el_vary e c n a v) as [e' [er|]]; [discriminate|]. cbn [fst] in Hv.
+    apply (IH _ _ H). apply (H_upd sq k e e' Hsq El Hv).
+Qed.
+
+Lemma outer_loop_pres : forall vs acc s, outer_loop vs acc = Ok s -> P acc -> P s.
+Proof.
+  induction vs as [|[c [n [a vals]]] t IH]; intros acc s H Hacc.
+  - cbn [outer_loop] in H. injection H as <-. exact Hacc.
+  - rewrite outer_loop_cons in H.
+    destruct (inner_loop c n a (combine (range1 (length vals)) vals) acc) as [acc'|er] eqn:Ei;
+      cbn [bind] in H; [|discriminate].
+    apply (IH _ _ H). apply (inner_loop_pres _ _ _ _ _ _ Ei). exact Hacc.
+Qed.
+
+Lemma make_varying_pres base cs ns ars its s : Q base -> make_varying base cs ns ars its = Ok s -> P s.
+Proof.
+  intros Hb H. rewrite make_varying_eq in H.
+  destruct (el_validate base) as [r0|er]; cbn [bind] in H; [|discriminate].
+  destruct (negb (same_len [length cs; length ns; length ars; length its])); [discriminate|].
+  destruct its as [|it0 itt]; [discriminate|].
+  destruct (negb (forallb (fun it => Nat.eqb (length it) (length it0)) (it0 :: itt))); [discriminate|].
+  destruct (el_sr base) as [SR|er]; cbn [bind] in H; [|discriminate].
+  destruct (fill_loop base (range1 (length it0)) (seq_set_sr seq_empty SR)) as [s0|er] eqn:Ef;
+    cbn [bind] in H; [|discriminate].
+  destruct (outer_loop (combine cs (combine ns (combine ars (it0 :: itt)))) s0) as [s1|er] eqn:Eo;
+    cbn [bind] in H; [|discriminate].
+  destruct (seq_check s1) as [chk|er]; cbn [bind] in H; [|discriminate].
+  destruct chk; [|discriminate]. injection H as <-.
+  apply (outer_loop_pres _ _ _ Eo). apply (fill_loop_pres base Hb _ _ _ Ef). apply H_setsr.
+Qed.
+
+Lemma linear_loop_pres base c n a : Q base -> forall kv acc s, linear_loop base c n a kv acc = Ok s -> P acc -> P s.
+Proof.
+  intro Hb. induction kv as [|[k v] t IH]; intros acc s H Hacc.
+  - cbn [linear_loop] in H. injection H as <-. exact Hacc.
+  - rewrite linear_loop_cons in H.
+    pose proof (H_vary base c n a (VNum v) Hb) as Hv.
+    destruct (el_vary base c n a (VNum v)) as [e' [er|]]; [discriminate|]. cbn [fst] in Hv.
+    destruct (step_res (seq_add_element acc k e')) as [acc'|er] eqn:Ea; cbn [bind] in H; [|discriminate].
+    apply step_res_fst in Ea. subst acc'. apply (IH _ _ H). apply H_addE; assumption.
+Qed.
+
+Lemma make_linear_pres base c n a start stop stp s : Q base -> make_linear base c n a start stop stp = Ok s -> P s.
+Proof.
+  intros Hb H. unfold make_linear in H.
+  destruct (el_sr base) as [SR|er]; cbn [bind] in H; [|discriminate].
+  destruct (Qeq_bool stp 0); [discriminate|].
+  destruct (rnd (Qabs.Qabs (stop - start) / stp) + 1 <? 0)%Z; [discriminate|].
+  set (vals := linspace start stop (rnd (Qabs.Qabs (stop - start) / stp) + 1)) in *.
+  change (linear_loop base c n a (combine (range1 (length vals)) vals) (seq_set_sr seq_empty SR) = Ok s) in H.
+  apply (linear_loop_pres base c n a Hb _ _ _ H). apply H_setsr.
+Qed.
+
+Lemma av_loop_pres m : forall vs acc r, av_loop m vs acc = Ok r -> P acc -> P r.
+Proof.
+  induction vs as [|v t IH]; intros acc r H Hacc.
+  - cbn [av_loop] in H. injection H as <-. exact Hacc.
+  - rewrite av_loop_cons in H.
+    destruct (alookup Z.eqb (v_pos v) (sdata acc)) as [[e|sb]|] eqn:El; [|discriminate|discriminate].
+    destruct (nth_error (v_vals v) m) as [x|]; [|discriminate].
+    pose proof (H_vary e (v_chan v) (v_name v) (v_arg v) x) as Hv.
+    destruct (el_vary e (v_chan v) (v_name v) (v_arg v) x) as [e' [er|]]; [discriminate|]. cbn [fst] in Hv.
+    apply (IH _ _ H). apply (H_upd acc (v_pos v) e e' Hacc El Hv).
+Qed.
+
+Lemma repeat_loop_pres (f : nat -> result seq) :
+  (forall m t, f m = Ok t -> P t) -> forall ms acc r, repeat_loop f ms acc = Ok r -> P acc -> P r.
+Proof.
+  intro Hf. induction ms as [|m t IH]; intros acc r H Hacc.
+  - cbn [repeat_loop] in H. injection H as <-. exact Hacc.
+  - change (repeat_loop f (m :: t) acc) with (do tmp <- f m; do acc' <- seq_add acc tmp; repeat_loop f t acc') in H.
+    destruct (f m) as [tmp|er] eqn:Ef; cbn [bind] in H; [|discriminate].
+    destruct (seq_add acc tmp) as [acc'|er] eqn:Ea; cbn [bind] in H; [|discriminate].
+    apply (IH _ _ H). apply (H_add acc tmp acc' Hacc (Hf _ _ Ef) Ea).
+Qed.
+
+Lemma repeat_and_vary_pres sq ps cs ns ars its r : P sq -> repeat_and_vary sq ps cs ns ars its = Ok r -> P r.
+Proof.
+  intros Hsq H. unfold repeat_and_vary in H.
+  destruct (seq_check sq) as [c|er]; cbn [bind] in H; [|discriminate].
+  destruct (negb c); [discriminate|].
+  destruct (negb (same_len [length ps; length cs; length ns; length ars; length its])); [discriminate|].
+  destruct its as [|it0 itt]; [discriminate|].
+  destruct (negb (forallb (fun it => Nat.eqb (length it) (length it0)) (it0 :: itt))); [discriminate|].
+  set (vars := map (fun x : Z * (chan * (str * (argref * list val))) =>
+                       let '(p, (c, (n, (a, vs)))) := x in mkVar p c n a vs)
+                    (combine ps (combine cs (combine ns (combine ars (it0 :: itt)))))) in *.
+  apply (repeat_loop_pres (apply_variations sq vars)) in H.
+  - exact H.
+  - intros m t Ht. rewrite apply_variations_eq in Ht. apply (av_loop_pres m _ _ _ Ht). exact Hsq.
+  - apply H_blank. exact Hsq.
+Qed.
+End ToolsPres.
+
+(* instances for seq_inv *)
+Lemma seq_inv_setsr SR : seq_inv (seq_set_sr seq_empty SR).
+Proof. unfold seq_set_sr. apply seq_inv_spec_set. exact seq_inv_empty. Qed.
+
+Lemma seq_inv_blank s : seq_inv s -> seq_inv (mkSeq [] [] (sspecs s) []).
+Proof.
+  intros (_ & _ & H3 & _). unfold seq_inv; cbn [sdata sseq sspecs akeys map].
+  repeat split; try constructor; try exact H3. intros p x [].
+Qed.
+
+Lemma make_varying_inv base cs ns ars its s : el_inv base -> make_varying base cs ns ars its = Ok s -> seq_inv s.
+Proof.
+  apply (make_varying_pres seq_inv el_inv seq_inv_setsr).
+  - intros s0 k e Hs He. apply seq_inv_add_element; assumption.
+  - exact seq_inv_upd.
+  - exact el_vary_inv.
+Qed.
+
+Lemma make_linear_inv base c n a start stop stp s :
+  el_inv base -> make_linear base c n a start stop stp = Ok s -> seq_inv s.
+Proof.
+  apply (make_linear_pres seq_inv el_inv seq_inv_setsr).
+  - intros s0 k e Hs He. apply seq_inv_add_element; assumption.
+  - exact el_vary_inv.
+Qed.
+
+Lemma repeat_and_vary_inv sq ps cs ns ars its r : seq_inv sq -> repeat_and_vary sq ps cs ns ars its = Ok r -> seq_inv r.
+Proof.
+  apply (repeat_and_vary_pres seq_inv el_inv seq_inv_blank seq_inv_upd seq_inv_add el_vary_inv).
+Qed.
+
+(* ================= the store ================= *)
+Lemma store_ok_initial : store_ok store0.
+Proof. unfold store_ok, store0; cbn [bps els sqs]. split; [|split]; intros r x []. Qed.
+
+Lemma putB_ok st r b : store_ok st -> Inv b -> store_ok (putB st r b).
+Proof.
+  intros (HB & HE & HS) Hb. unfold store_ok, putB; cbn [bps els sqs]. split; [|split]; try assumption.
+  intros r' b' Hin. apply In_aset in Hin as [E|Hin]; [inversion E; subst; exact Hb | eapply HB; exact Hin].
+Qed.
+
+Lemma putE_ok st r e : store_ok st -> el_inv e -> store_ok (putE st r e).
+Proof.
+  intros (HB & HE & HS) He. unfold store_ok, putE; cbn [bps els sqs]. split; [|split]; try assumption.
+  intros r' e' Hin. apply In_aset in Hin as [E|Hin]; [inversion E; subst; exact He | eapply HE; exact Hin].
+Qed.
+
+Lemma putS_ok st r s : store_ok st -> seq_inv s -> store_ok (putS st r s).
+Proof.
+  intros (HB & HE & HS) Hs. unfold store_ok, putS; cbn [bps els sqs]. split; [|split]; try assumption.
+  intros r' s' Hin. apply In_aset in Hin as [E|Hin]; [inversion E; subst; exact Hs | eapply HS; exact Hin].
+Qed.
+
+Lemma getB_ok st r b : store_ok st -> getB st r = Ok b -> Inv b.
+Proof.
+  intros (HB & _ & _) H. unfold getB in H.
+  destruct (alookup Nat.eqb r (bps st)) as [b0|] eqn:E; [|discriminate H].
+  inversion H; subst. apply alookup_In in E as (k & Hin). eapply HB; exact Hin.
+Qed.
+
+Lemma getE_ok st r e : store_ok st -> getE st r = Ok e -> el_inv e.
+Proof.
+  intros (_ & HE & _) H. unfold getE in H.
+  destruct (alookup Nat.eqb r (els st)) as [b0|] eqn:E; [|discriminate H].
+  inversion H; subst. apply alookup_In in E as (k & Hin). eapply HE; exact Hin.
+Qed.
+
+Lemma getS_ok st r s : store_ok st -> getS st r = Ok s -> seq_inv s.
+Proof.
+  intros (_ & _ & HS) H. unfold getS in H.
+  destruct (alookup Nat.eqb r (sqs st)) as [b0|] eqn:E; [|discriminate H].
+  inversion H; subst. apply alookup_In in E as (k & Hin). eapply HS; exact Hin.
+Qed.
+
+Lemma onB_ok st r f : store_ok st -> (forall b, Inv b -> Inv (fst (f b))) -> store_ok (fst (onB st r f)).
+Proof.
+  intros Hs Hf. unfold onB. destruct (getB st r) as [b|e] eqn:E; [|exact Hs].
+  pose proof (Hf b (getB_ok _ _ _ Hs E)) as Hb.
+  destruct (f b) as [b' o]. cbn [fst] in *. apply putB_ok; assumption.
+Qed.
+
+Lemma onE_ok st r f : store_ok st -> (forall e, el_inv e -> el_inv (fst (f e))) -> store_ok (fst (onE st r f)).
+Proof.
+  intros Hs Hf. unfold onE. destruct (getE st r) as [b|e] eqn:E; [|exact Hs].
+  pose proof (Hf b (getE_ok _ _ _ Hs E)) as Hb.
+  destruct (f b) as [b' o]. cbn [fst] in *. apply putE_ok; assumption.
+Qed.
+
+Lemma onS_ok st r f : store_ok st -> (forall s, seq_inv s -> seq_inv (fst (f s))) -> store_ok (fst (onS st r f)).
+Proof.
+  intros Hs Hf. unfold onS. destruct (getS st r) as [b|e] eqn:E; [|exact Hs].
+  pose proof (Hf b (getS_ok _ _ _ Hs E)) as Hb.
+  destruct (f b) as [b' o]. cbn [fst] in *. apply putS_ok; assumption.
+Qed.
+
+Lemma store_ok_step : forall st o, api_op o -> store_ok st -> store_ok (fst (exec st o)).
+Proof.
+  intros st o Ha Hs. destruct o; unfold exec; try exact Hs.
+  - (* BNew *) apply putB_ok; [exact Hs|exact Inv_empty].
+  - apply onB_ok; [exact Hs | intros b Hb; apply Inv_insert; exact Hb].
+  - apply onB_ok; [exact Hs | intros b Hb; apply Inv_remove; exact Hb].
+  - apply onB_ok; [exact Hs | intros b Hb; apply Inv_change_arg; exact Hb].
+  - apply onB_ok; [exact Hs | intros b Hb; apply Inv_change_dur; exact Hb].
+  - apply onB_ok; [exact Hs | intros b Hb; apply Inv_set_segmarker; exact Hb].
+  - apply onB_ok; [exact Hs | intros b Hb; apply Inv_remove_segmarker; exact Hb].
+  - apply onB_ok; [exact Hs | intros b Hb; apply Inv_set_sr; exact Hb].
+  - apply onB_ok; [exact Hs | intros b Hb].
+    unfold ok; cbn [fst]. destruct (id =? 1)%Z; [apply Inv_set_am1 | apply Inv_set_am2]; exact Hb.
+  - (* BCopy *) destruct (getB st r) as [b|e] eqn:E; [|exact Hs].
+    apply putB_ok; [exact Hs | apply Inv_copy; eapply getB_ok; eassumption].
+  - (* BAdd *) destruct (getB st r1) as [a|e] eqn:E1; [|exact Hs].
+    destruct (getB st r2) as [b|e] eqn:E2; [|exact Hs].
+    apply putB_ok; [exact Hs | apply Inv_add; eapply getB_ok; eassumption].
+  - (* BFromJson *) destruct Ha.
+  - (* ENew *) apply putE_ok; [exact Hs|exact el_inv_empty].
+  - (* EAddBp *) destruct (getB st r) as [b|er] eqn:E; [|exact Hs].
+    apply onE_ok; [exact Hs|]. intros x Hx. apply el_add_bp_inv; [eapply getB_ok; eassumption|exact Hx].
+  - apply onE_ok; [exact Hs|]. intros x Hx. apply el_add_array_inv; exact Hx.
+  - apply onE_ok; [exact Hs|]. intros x Hx. apply el_add_flags_inv; exact Hx.
+  - apply onE_ok; [exact Hs|]. intros x Hx. apply el_change_arg_inv; exact Hx.
+  - apply onE_ok; [exact Hs|]. intros x Hx. apply el_change_dur_inv; exact Hx.
+  - (* ECopy *) destruct (getE st e) as [x|er] eqn:E; [|exact Hs].
+    apply putE_ok; [exact Hs|eapply getE_ok; eassumption].
+  - (* EFromJson *) destruct Ha.
+  - (* SNew *) apply putS_ok; [exact Hs|exact seq_inv_empty].
+  - apply onS_ok; [exact Hs|]. intros x Hx. unfold ok; cbn [fst]. apply seq_inv_spec_set; exact Hx.
+  - apply onS_ok; [exact Hs|]. intros x Hx. unfold ok; cbn [fst]. apply seq_inv_spec_set; exact Hx.
+  - apply onS_ok; [exact Hs|]. intros x Hx. unfold ok; cbn [fst]. apply seq_inv_spec_set; exact Hx.
+  - apply onS_ok; [exact Hs|]. intros x Hx. unfold ok; cbn [fst]. apply seq_inv_spec_set; exact Hx.
+  - apply onS_ok; [exact Hs|]. intros x Hx. apply seq_inv_set_filter; exact Hx.
+  - (* SAddElement *) destruct (getE st e) as [x|er] eqn:E; [|exact Hs].
+    apply onS_ok; [exact Hs|]. intros q Hq. apply seq_inv_add_element; [exact Hq|eapply getE_ok; eassumption].
+  - (* SAddSub *) destruct (getS st s2) as [x|er] eqn:E; [|exact Hs].
+    apply onS_ok; [exact Hs|]. intros q Hq. apply seq_inv_add_sub; [exact Hq|eapply getS_ok; eassumption].
+  - apply onS_ok; [exact Hs|]. intros q Hq. apply seq_inv_set_sequencing; exact Hq.
+  - (* SSetSettings *) apply onS_ok; [exact Hs|]. intros q Hq. unfold ok, seq_set_settings; cbn [fst].
+    apply seq_inv_set_sseq; exact Hq.
+  - (* SSetName *) apply onS_ok; [exact Hs|]. intros q Hq. unfold ok; cbn [fst]. exact Hq.
+  - (* SAdd *) destruct (getS st s1) as [a|er] eqn:E1; [|exact Hs].
+    destruct (getS st s2) as [b|er] eqn:E2; [|exact Hs].
+    destruct (seq_add a b) as [c|er] eqn:Ea; [|exact Hs].
+    apply putS_ok; [exact Hs|]. eapply seq_inv_add; [eapply getS_ok; [exact Hs|exact E1]|eapply getS_ok; [exact Hs|exact E2]|exact Ea].
+  - (* SCopy *) destruct (getS st s) as [x|er] eqn:E; [|exact Hs].
+    apply putS_ok; [exact Hs|eapply getS_ok; eassumption].
+  - (* SFromJson *) destruct Ha.
+  - (* SElemChangeArg *) apply onS_ok; [exact Hs|]. intros q Hq.
+    apply (on_seq_elem_pres seq_inv el_inv); [exact seq_inv_upd| |exact Hq].
+    intros e He. apply el_change_arg_inv; exact He.
+  - apply onS_ok; [exact Hs|]. intros q Hq.
+    apply (on_seq_elem_pres seq_inv el_inv); [exact seq_inv_upd| |exact Hq].
+    intros e He. apply el_change_dur_inv; exact He.
+  - (* TVarying *) destruct (getE st e) as [x|er] eqn:E; [|exact Hs].
+    destruct (make_varying x cs ns ars its) as [q|er] eqn:Em; [|exact Hs].
+    apply putS_ok; [exact Hs|]. eapply make_varying_inv; [eapply getE_ok; eassumption|exact Em].
+  - (* TRepeat *) destruct (getS st s) as [x|er] eqn:E; [|exact Hs].
+    destruct (repeat_and_vary x ps cs ns ars its) as [q|er] eqn:Em; [|exact Hs].
+    apply putS_ok; [exact Hs|]. eapply repeat_and_vary_inv; [eapply getS_ok; eassumption|exact Em].
+  - (* TLinear *) destruct (getE st e) as [x|er] eqn:E; [|exact Hs].
+    destruct (make_linear x c n a start stop stp) as [q|er] eqn:Em; [|exact Hs].
+    apply putS_ok; [exact Hs|]. eapply make_linear_inv; [eapply getE_ok; eassumption|exact Em].
+Qed.
+
+Lemma store_ok_reachable : forall prog st, Forall api_op prog -> store_ok st -> store_ok (final_store st prog).
+Proof.
+  induction prog as [|o t IH]; intros st HF Hs; cbn [final_store]; [exact Hs|].
+  inversion HF as [|? ? Ho Ht]; subst. apply IH; [exact Ht|]. apply store_ok_step; assumption.
+Qed.
+
+Lemma reachable_blueprints_everywhere : forall prog r s p e c ch b,
+  Forall api_op prog -> In (r, s) (sqs (final_store store0 prog)) ->
+  In (p, EElem e) (sdata s) -> In (c, ch) (edata e) -> ckind ch = KBp b ->
+  Inv b /\ NoDup (names b) /\ length (names b) = length (funs b).
+Proof.
+  intros prog r s p e c ch b HF Hin Hp Hc Hk.
+  destruct (store_ok_reachable prog store0 HF store_ok_initial) as (_ & _ & HS).
+  destruct (HS _ _ Hin) as (_ & _ & _ & H4).
+  pose proof (H4 _ _ Hp) as He. cbn [entry_inv] in He. destruct He as [_ Hbp].
+  pose proof (Hbp _ _ _ Hc Hk) as HI.
+  split; [exact HI|]. split; [apply Inv_NoDup; exact HI|].
+  destruct HI as (H1 & _). symmetry. exact H1.
+Qed.
+
+Lemma reachable_sequence_keys : forall prog r s,
+  Forall api_op prog -> In (r, s) (sqs (final_store store0 prog)) ->
+  NoDup (akeys (sdata s)) /\ NoDup (akeys (sseq s)) /\ NoDup (akeys (sspecs s)).
+Proof.
+  intros prog r s HF Hin.
+  destruct (store_ok_reachable prog store0 HF store_ok_initial) as (_ & _ & HS).
+  destruct (HS _ _ Hin) as (H1 & H2 & H3 & _). repeat split; assumption.
+Qed.
